@@ -218,7 +218,10 @@ theorem demo_wellFormed : WellFormed demoFacts false := by
   rotate_left
   · intro g ms h
     match g with
-    | 0 => simp [demoFacts] at h
+    | 0 =>
+      simp [demoFacts] at h
+      obtain ⟨_, _, _, _, rfl, _⟩ := h
+      exact ⟨List.nodup_nil, fun m hm => by cases hm⟩
     | 1 => simp [demoFacts] at h
     | 2 => simp [demoFacts] at h
     | _ + 3 => simp [demoFacts] at h
@@ -287,6 +290,28 @@ theorem interface_methods_faithful {bt : List Builtin} {F : Facts} {v2 : Bool} {
   simp only [hn] at this
   exact ⟨this.1, this.2 hne⟩
 
+/-- **defined_type_methods_faithful**: the methods phase of `walkType` records (in ghost fields of the model) for which
+defined type it ran on an object.  Whenever it ran for the defined type `g'`, the object's method table is exactly the
+method set go/types reports for that type (for a generic declaration: of its origin, F22) – every method bound to the
+object registered under the method's printed name, which `described` says is its signature with parameters, results,
+variadic flag and receiver – unless the object had methods already (`nskip`: the object of an interface, whose table
+`interface_methods_faithful` describes) -/
+theorem defined_type_methods_faithful {bt : List Builtin} {F : Facts} {v2 : Bool} {u : U} (h : Full bt F v2 u) (o : Nat) (ob : Obj) (g' : Nat)
+    (hob : u.objs[o]? = some ob) (hs : ob.nsrc = some g') :
+    ∃ und ms tps ou, F.node g' = .named und ms tps ou ∧ (ob.nskip = false → MethodsMatch F v2 u ob.methods ms) := by
+  rcases h.2.meth.mdesc o ob g' hob hs with hp | hd
+  · cases hp
+  · exact hd
+
+/-- the methods phase of a defined type's walk records that type: after `addMethods … g` the object carries `nsrc = g` -/
+theorem methods_phase_recorded {F : Facts} {v2 : Bool} {bt : List Builtin} (hwf : WellFormed F v2) (fuel : Nat) (u : U) (o : Nat)
+    (g und ou : Nat) (ms : List GMethod) (tps : List (Str × Nat)) (hn : F.node g = .named und ms tps ou) (P : List Nat) (u' : U) (o' : Nat)
+    (hi : WalkInv.Inv bt u) (hdi : DInv F v2 u P) (hkn : Known u o)
+    (hf : addMethods v2 (fun u c un => walk bt F v2 fuel u c un) u o ms g = some (u', o')) :
+    ∃ ob' : Obj, u'.objs[o]? = some ob' ∧ ob'.nsrc = some g :=
+  (addMethods_desc (walk_inv bt F v2 fuel) (walk_desc bt F v2 hwf fuel) u o ms P hn (hwf.methods g ms (.inr ⟨_, _, _, hn⟩))
+    u' o' hi hdi hkn hf).2.2
+
 /-! ### declarations and package records (Lemmas/WalkSide.lean) -/
 open Gengo.WalkSide
 
@@ -337,7 +362,10 @@ theorem generic_wellFormed : WellFormed genericFacts true := by
   rotate_left
   · intro g ms h
     match g with
-    | 0 => simp [genericFacts] at h
+    | 0 =>
+      simp [genericFacts] at h
+      obtain ⟨_, _, _, _, rfl, _⟩ := h
+      exact ⟨List.nodup_nil, fun m hm => by cases hm⟩
     | 1 => simp [genericFacts] at h
     | 2 => simp [genericFacts] at h; subst h; exact ⟨List.nodup_nil, fun m hm => by cases hm⟩
     | 3 => simp [genericFacts] at h
@@ -352,6 +380,24 @@ theorem generic_wellFormed : WellFormed genericFacts true := by
   | 2 => simp [genericFacts] at h
   | 3 => simp [genericFacts] at h
   | _ + 4 => simp [genericFacts] at h
+
+/-- `type T struct{}` with `func (T) M()` in package p -/
+def methFacts : Facts where
+  node
+    | 0 => .named 1 [⟨['M'], 2, "func (p.T).M()".toList⟩] [] 1
+    | 1 => .struct []
+    | 2 => .sig [] [] false (some 0)
+    | _ => .other
+  str
+    | 0 => ['p', '.', 'T']
+    | 1 => "struct{}".toList
+    | 2 => "func()".toList
+    | _ => []
+
+/-- non-vacuity for methods: the walk succeeds, the methods phase is recorded for node 0 and did not skip, and the method
+table has exactly the entry `M` -/
+example : ((walk [] methFacts false 8 {} 0 none).map (fun r => (r.1.objs[r.2]?).map (fun ob => (ob.nsrc, ob.nskip, ob.methods.map (·.1))))) =
+    some (some (some 0, false, [['M']])) := by decide
 
 /-- **hypotheses_checked_per_case**: the model driver answers the `hyp` line of a correspondence case with the three
 executable checks of `Model/FactsCheck`; when they say yes, the facts the driver's loaders run on (`world st`) meet the
